@@ -53,14 +53,8 @@ Section AlistP.
       pose proof (Permutation_in _ Hp E2) as H. apply (lookup_in_iff _ _ _ Hnd) in H. congruence.
   Qed.
 
-  (* how a Go map comes back from Decode: nil when it was empty, else an equal finite map *)
-  Definition map_back (o : option (list (K * bytes))) (m : list (K * bytes)) : Prop :=
-    match m with
-    | [] => o = None
-    | _ :: _ => exists l, o = Some l /\ fm_eq keq l m
-    end.
-
-  Lemma map_back_perm o m m' : NoDup (keys m) -> Permutation m m' -> map_back o m -> map_back o m'.
+  Lemma map_back_perm o m m' :
+    NoDup (keys m) -> Permutation m m' -> map_back keq o m -> map_back keq o m'.
   Proof.
     intros Hnd Hp. destruct m as [|x m].
     - apply Permutation_nil in Hp. subst. tauto.
@@ -420,16 +414,20 @@ Proof.
   assert (Hu : u32 (info_size im sm) = info_size im sm) by (apply N.mod_small; exact Hnw).
   rewrite Hu in H. unfold L_max, L_meta in *.
   destruct (N.ltb_spec 65536 (info_size im sm)) as [Hgt|Hle]; [discriminate|].
-  inversion H as [Hb]; clear H.
-  fold (info_bytes (p_pid p) im sm). pose proof (info_bytes_len (p_pid p) im sm) as Hil.
-  rewrite magic_flags by exact Hfl. rewrite be2_u16. rewrite <- !app_assoc.
+  apply (f_equal (fun r => match r with Ok x => x | _ => [] end)) in H. symmetry in H.
+  change ([p_pid p; 0] ++ enc_secs (body im sm) ++ repeat 0 (N.to_nat (pad_of im sm)))
+    with (info_bytes (p_pid p) im sm) in H.
+  pose proof (info_bytes_len (p_pid p) im sm) as Hil.
+  rewrite magic_flags in H by exact Hfl. rewrite be2_u16 in H. rewrite <- !app_assoc in H.
+  subst b.
   assert (Hq : info_size im sm / 4 < 65536).
   { apply N.div_lt_upper_bound; lia. }
   split; [|split; [|split]].
   - exists tl, (body im sm), (N.to_nat (pad_of im sm)). cbv zeta.
     fold (info_bytes (p_pid p) im sm). rewrite Hil.
     split; [reflexivity|]. split; [|split; [|split; [|split]]].
-    + exists (filter not_gdpr sm), im. repeat split; apply Permutation_refl.
+    + exists (filter not_gdpr sm), im. repeat split; try apply Permutation_refl.
+      unfold body. destruct (filter not_gdpr sm); reflexivity.
     + apply body_ok; try assumption. lia.
     + lia.
     + exact Hmod.
@@ -460,14 +458,18 @@ Proof. induction n as [|n IH]; [reflexivity|]. cbn [repeat]. rewrite enc_secs_co
 Lemma secs_ok_pads n : secs_ok (repeat Pad n).
 Proof. apply Forall_forall. intros s H. apply repeat_spec in H. subst. exact I. Qed.
 
+Lemma fold_pads n : forall m, fold_left interp_step (repeat Pad n) m = m.
+Proof. induction n as [|n IH]; intros m; [reflexivity|]. cbn [repeat fold_left interp_step]. apply IH. Qed.
+
+Lemma existsb_pads (f : sec -> bool) n : f Pad = false -> existsb f (repeat Pad n) = false.
+Proof.
+  intros Hf. induction n as [|n IH]; [reflexivity|]. cbn [repeat existsb]. rewrite Hf, IH. reflexivity.
+Qed.
+
 Lemma ointerp_pads secs n : ointerp (secs ++ repeat Pad n) = ointerp secs.
 Proof.
   unfold ointerp, interp, interp_from. rewrite fold_left_app, !existsb_app.
-  assert (H1 : forall m, fold_left interp_step (repeat Pad n) m = m).
-  { induction n as [|n IH]; intros m; [reflexivity|]. cbn [repeat fold_left interp_step]. apply IH. }
-  assert (H2 : forall f, f Pad = false -> existsb f (repeat Pad n) = false).
-  { intros f Hf. induction n as [|n IH]; [reflexivity|]. cbn [repeat existsb]. rewrite Hf, IH. reflexivity. }
-  rewrite H1, !H2 by reflexivity. rewrite !orb_false_r. reflexivity.
+  rewrite fold_pads, !existsb_pads by reflexivity. rewrite !orb_false_r. reflexivity.
 Qed.
 
 Lemma ointerp_body (tokopt : option bytes) (sl : list (bytes * bytes)) (il : list (N * bytes)) :
@@ -508,11 +510,7 @@ Lemma body_maps im sm secs :
   map_back N.eqb (fst (ointerp secs)) im /\ map_back beqb (snd (ointerp secs)) sm.
 Proof.
   intros Hni Hns (sl & il & Hsl & Hil & ->).
-  assert (E : (match sl with [] => [] | _ => [KV sl] end) = match sl with [] => [] | _ :: _ => [KV sl] end)
-    by (destruct sl; reflexivity).
-  assert (E' : (match il with [] => [] | _ => [IntKV il] end) = match il with [] => [] | _ :: _ => [IntKV il] end)
-    by (destruct il; reflexivity).
-  rewrite E, E', ointerp_body. cbn [fst snd]. clear E E'. split.
+  rewrite ointerp_body. cbn [fst snd]. split.
   - destruct il as [|i0 il'].
     + apply Permutation_nil in Hil. subst im. reflexivity.
     + apply (map_back_perm N.eqb N.eqb_eq _ (i0 :: il') im).
@@ -558,7 +556,7 @@ Proof.
   assert (Hb' : set_total b T ++ payload =
                 be 4 T ++ be 2 L_magic16 ++ be 2 fl ++ be 4 (to_unsigned 32 sq)
                    ++ be 2 (len info / 4) ++ (info ++ payload)).
-  { unfold set_total. rewrite (N.mod_small T) by exact HT. rewrite Hb.
+  { unfold set_total, u32. rewrite (N.mod_small T) by exact HT. rewrite Hb.
     change (drop 4 (be 4 tl ++ ?r)) with r. rewrite <- !app_assoc. reflexivity. }
   destruct (frame_fields T L_magic16 fl (to_unsigned 32 sq) (len info / 4) (info ++ payload))
     as (F0 & F4 & F6 & F8 & F12 & Ft & Fd & Fl).
@@ -580,7 +578,7 @@ Proof.
   assert (Hl2 : 2 <= len info).
   { unfold info. rewrite len_app. change (len [pid; 0]) with 2. lia. }
   rewrite decode_core.
-  2:{ rewrite Ft. repeat (apply wf_app; split); apply be_wf. }
+  2:{ rewrite Ft. do 4 (apply wf_app; split; [apply be_wf|]). apply be_wf. }
   2:{ rewrite Fl. lia. }
   rewrite F4, N.eqb_refl. cbn [negb]. rewrite Hdecl. unfold L_max.
   destruct (N.ltb_spec 65536 (len info)) as [Hx|_]; [lia|].
@@ -602,4 +600,144 @@ Proof.
   - lia.
   - apply Forall_app. split; [exact Hok|apply secs_ok_pads].
   - rewrite enc_secs_app, enc_pads. reflexivity.
+Qed.
+
+(* ---------- C06: round trip, for every enumeration order of the two maps ---------- *)
+Lemma params_wf_perm fl sq pid im sm io so :
+  Permutation io im -> Permutation so sm ->
+  params_wf {| p_flags := fl; p_seq := sq; p_pid := pid; p_int := im; p_str := sm |} ->
+  params_wf {| p_flags := fl; p_seq := sq; p_pid := pid; p_int := io; p_str := so |}.
+Proof.
+  intros Hi Hs (H1 & H2 & H3 & H4 & H5). cbn [p_flags p_seq p_pid p_int p_str] in *.
+  split; [exact H1|split; [exact H2|split; [exact H3|split]]].
+  - eapply Permutation_Forall; [apply Permutation_sym, Hi|exact H4].
+  - eapply Permutation_Forall; [apply Permutation_sym, Hs|exact H5].
+Qed.
+
+Lemma roundtrip fl sq pid im sm io so tl b payload :
+  let p := {| p_flags := fl; p_seq := sq; p_pid := pid; p_int := io; p_str := so |} in
+  Permutation io im -> Permutation so sm -> NoDup (keys im) -> NoDup (keys sm) ->
+  params_wf p -> In pid L_pids -> info_size io so < two32 ->
+  encode tl p = Ok b -> len b + len payload - 4 < two32 ->
+  exists r, decode (set_total b (len b + len payload - 4) ++ payload) = (len b, Ok r) /\
+            d_flags r = fl /\ d_seq r = sq /\ d_pid r = pid /\
+            map_back N.eqb (d_int r) im /\ map_back beqb (d_str r) sm /\
+            d_hlen r = Z.of_N (len b) /\ d_plen r = Z.of_N (len payload).
+Proof.
+  intros p Hpi Hps Hni Hns Hwf Hpid Hnw He HT.
+  assert (Hnio : NoDup (keys io)).
+  { eapply Permutation_NoDup; [|exact Hni]. apply Permutation_map, Permutation_sym, Hpi. }
+  assert (Hnso : NoDup (keys so)).
+  { eapply Permutation_NoDup; [|exact Hns]. apply Permutation_map, Permutation_sym, Hps. }
+  destruct (enc_layout tl p b Hnso Hwf Hnw He) as (Hfr & _).
+  destruct Hwf as (Hfl & Hsq & _).
+  destruct (frame_decodes fl sq pid io so b payload Hfr Hfl Hsq Hpid Hnio Hnso HT)
+    as (r & Hd & H1 & H2 & H3 & H4 & H5 & H6 & H7).
+  exists r. repeat split; try assumption.
+  - eapply map_back_perm; [exact N.eqb_eq|exact Hnio|exact Hpi|exact H4].
+  - eapply map_back_perm; [exact beqb_spec|exact Hnso|exact Hps|exact H5].
+Qed.
+
+(* ---------- IsTTHeader / IsStreaming ---------- *)
+Lemma explode8 (b : bytes) : 8 <= len b ->
+  exists m0 m1 m2 m3 m4 m5 m6 m7 rest, b = m0 :: m1 :: m2 :: m3 :: m4 :: m5 :: m6 :: m7 :: rest.
+Proof.
+  intros H. do 8 (destruct b as [|? b]; [rewrite ?len_cons, ?len_nil in H; lia|]).
+  repeat eexists.
+Qed.
+
+(* IsTTHeader looks at bytes 4..7 and needs them: on fewer than 8 bytes it panics *)
+Lemma is_ttheader_spec b :
+  wf (take 8 b) -> 8 <= len b -> is_ttheader b = Ok (field_at b 4 2 =? L_magic16).
+Proof.
+  intros Hw Hl. destruct (explode8 b Hl) as (m0 & m1 & m2 & m3 & m4 & m5 & m6 & m7 & rest & ->).
+  change (take 8 _) with [m0; m1; m2; m3; m4; m5; m6; m7] in Hw.
+  unfold wf in Hw. repeat (apply Forall_cons_iff in Hw; destruct Hw as [? Hw]). unfold wfb in *.
+  unfold is_ttheader, slice_from. change c_s32 with 4.
+  destruct (N.leb_spec 4 (len (m0 :: m1 :: m2 :: m3 :: m4 :: m5 :: m6 :: m7 :: rest))) as [_|Hx]; [|lia].
+  change (drop 4 (m0 :: m1 :: m2 :: m3 :: m4 :: m5 :: m6 :: m7 :: rest)) with (m4 :: m5 :: m6 :: m7 :: rest).
+  cbn [bind be_u32]. rewrite magic_test by assumption. reflexivity.
+Qed.
+
+Lemma is_ttheader_short b : len b < 8 -> exists w, is_ttheader b = Panic w.
+Proof.
+  intros H. do 8 (destruct b as [|? b]; [eexists; reflexivity|]).
+  rewrite !len_cons in H. lia.
+Qed.
+
+Lemma is_streaming_spec b :
+  is_streaming b =
+  Ok ((8 <=? len b) && (field_at b 4 2 =? L_magic16)
+      && negb (N.land (field_at b 6 2) L_streaming =? 0)).
+Proof.
+  unfold is_streaming. destruct (N.ltb_spec (len b) 8) as [Hs|Hl].
+  - destruct (N.leb_spec 8 (len b)); [lia|reflexivity].
+  - destruct (N.leb_spec 8 (len b)); [|lia]. cbn [andb].
+    destruct (explode8 b Hl) as (m0 & m1 & m2 & m3 & m4 & m5 & m6 & m7 & rest & ->).
+    unfold slice_from. change c_s32 with 4. change (4 + c_s16) with 6.
+    destruct (N.leb_spec 4 (len (m0 :: m1 :: m2 :: m3 :: m4 :: m5 :: m6 :: m7 :: rest))) as [_|Hx]; [|lia].
+    destruct (N.leb_spec 6 (len (m0 :: m1 :: m2 :: m3 :: m4 :: m5 :: m6 :: m7 :: rest))) as [_|Hx]; [|lia].
+    change (drop 4 (m0 :: m1 :: m2 :: m3 :: m4 :: m5 :: m6 :: m7 :: rest)) with (m4 :: m5 :: m6 :: m7 :: rest).
+    change (drop 6 (m0 :: m1 :: m2 :: m3 :: m4 :: m5 :: m6 :: m7 :: rest)) with (m6 :: m7 :: rest).
+    cbn [bind be_u16].
+    change (field_at _ 4 2) with (m4 * 256 + m5). change (field_at _ 6 2) with (m6 * 256 + m7).
+    change (u16 (c_magic / two16)) with L_magic16. change (u16 c_streaming) with L_streaming.
+    destruct (m4 * 256 + m5 =? L_magic16); reflexivity.
+Qed.
+
+(* on an encoded header both agree with what was encoded *)
+Lemma enc_is_ttheader tl p b :
+  NoDup (keys (p_str p)) -> params_wf p -> info_size (p_int p) (p_str p) < two32 ->
+  encode tl p = Ok b ->
+  is_ttheader b = Ok true /\
+  is_streaming b = Ok (negb (N.land (p_flags p) L_streaming =? 0)).
+Proof.
+  intros Hnd Hwf Hnw He. destruct (enc_layout tl p b Hnd Hwf Hnw He) as (Hfr & _).
+  destruct Hwf as (Hfl & _).
+  destruct Hfr as (tl' & secs & pad & Hfr). cbv zeta in Hfr. destruct Hfr as (Hb & _).
+  set (info := [p_pid p; 0] ++ enc_secs secs ++ repeat 0 pad) in *.
+  destruct (frame_fields tl' L_magic16 (p_flags p) (to_unsigned 32 (p_seq p)) (len info / 4) info)
+    as (_ & F4 & F6 & _ & _ & Ft & _ & Fl).
+  cbv zeta in F4, F6, Ft, Fl. rewrite <- Hb in *.
+  change (unbe (be 2 L_magic16)) with L_magic16 in F4. rewrite unbe_be2 in F6 by exact Hfl.
+  assert (Hl : 8 <= len b) by lia.
+  split.
+  - rewrite is_ttheader_spec; [rewrite F4; reflexivity| |exact Hl].
+    replace (take 8 b) with (take 8 (take 14 b)).
+    + apply wf_take. rewrite Ft. do 4 (apply wf_app; split; [apply be_wf|]). apply be_wf.
+    + unfold take. rewrite firstn_firstn. reflexivity.
+  - rewrite is_streaming_spec, F4, F6. destruct (N.leb_spec 8 (len b)); [reflexivity|lia].
+Qed.
+
+(* ---------- boolean forms of the hypotheses ---------- *)
+Definition params_wfb (p : eparam) : bool :=
+  (p_flags p <? 65536) && in_signedb 32 (p_seq p) && (p_pid p <? 256)
+  && forallb (fun kv : N * bytes => (fst kv <? 65536) && wfbb (snd kv)) (p_int p)
+  && forallb (fun kv : bytes * bytes => wfbb (fst kv) && wfbb (snd kv)) (p_str p).
+
+Lemma params_wfb_spec p : params_wfb p = true -> params_wf p.
+Proof.
+  unfold params_wfb, params_wf. rewrite !andb_true_iff, !forallb_forall, !Forall_forall.
+  intros ((((H1 & H2) & H3) & H4) & H5). repeat split.
+  - lia.
+  - apply in_signedb_spec in H2. apply H2.
+  - apply in_signedb_spec in H2. apply H2.
+  - lia.
+  - specialize (H4 _ H). lia.
+  - specialize (H4 _ H). apply andb_true_iff in H4. apply wfbb_wf, H4.
+  - specialize (H5 _ H). apply andb_true_iff in H5. apply wfbb_wf, H5.
+  - specialize (H5 _ H). apply andb_true_iff in H5. apply wfbb_wf, H5.
+Qed.
+
+Lemma nodupk_spec {K} (keq : K -> K -> bool) (keq_spec : forall a b, keq a b = true <-> a = b) l :
+  nodupk keq l = true -> NoDup l.
+Proof.
+  induction l as [|x r IH]; cbn [nodupk]; [constructor|].
+  rewrite andb_true_iff, negb_true_iff. intros [H1 H2]. constructor; [|apply IH, H2].
+  intros Hin. assert (Hm : memk keq x r = true).
+  { clear -Hin keq_spec. induction r as [|y r IH]; [contradiction|]. cbn [memk].
+    destruct Hin as [->|Hin].
+    - replace (keq x x) with true by (symmetry; apply keq_spec; reflexivity). reflexivity.
+    - rewrite IH by exact Hin. apply orb_true_r. }
+  congruence.
 Qed.
